@@ -2,8 +2,10 @@ import BfeVerif.Common.Proto
 import BfeVerif.C47.Model
 /-!
   C47 driver.
-  op     : `<ws|tls>;pc=<hex>;pb=<hex>;s=<step>,...`   step = `c:<hex>` | `b:<hex>` | `xc` | `xb`
+  op     : `<ws|tls|tlsr>;pc=<hex>;pb=<hex>;s=<step>,...`   step = `c:<hex>` | `b:<hex>` | `xc` | `xb`
   result : `B=<hex backend received> C=<hex client received> bclosed=<0|1> cclosed=<0|1>`
+  (tlsr = TLS stream tunnel over a RESUMED session whose first application data travels in the same write as the
+   client's ChangeCipherSpec+Finished; for the model it is a TLS tunnel whose first client write is pc)
   model  : the scripted steps run through `runScript` (relays drained after every peer action)
   oracle : (independent of the model) B = pc ++ all client writes, C = pb ++ all backend writes, both sides closed
 -/
@@ -36,7 +38,7 @@ def run (op impl : String) : Ans :=
     | some hpc, some hpb, some hs =>
       match bytesOfHex hpc, bytesOfHex hpb, (if hs == "-" then some [] else (hs.splitOn ",").mapM parseStep) with
       | some pc, some pb, some script =>
-        if proto != "ws" && proto != "tls" then { model := "bad-op", verdict := "skip" } else
+        if proto != "ws" && proto != "tls" && proto != "tlsr" then { model := "bad-op", verdict := "skip" } else
         -- steps up to and including the first close; a script without close ends with the client closing
         let rec cut : List Sc → List Sc
           | [] => [.xc]
@@ -61,7 +63,8 @@ def run (op impl : String) : Ans :=
           if impl.startsWith "err:" || impl == "HANG" || impl.startsWith "PANIC" then "harness-" ++ impl
           else match (impl.splitOn " ") with
             | [fb, fc, fbc, fcc] =>
-              if fb != "B=" ++ hexField expB then "c2b-bytes-differ"
+              if fb != "B=" ++ hexField expB then
+                (if proto == "tlsr" then "c2b-bytes-lost-at-handshake" else "c2b-bytes-differ")
               else if fc != "C=" ++ hexField expC then "b2c-bytes-differ"
               else if fbc != "bclosed=1" then "close-not-propagated-to-backend"
               else if fcc != "cclosed=1" then "close-not-propagated-to-client"
